@@ -2,7 +2,9 @@
 //! usage: vmverif <world> <seed> <n> <outdir> [opts…]   |   vmverif replay <world> <opsfile> <outdir>
 mod atomicw;
 mod atomw;
+#[cfg(not(feature = "xen"))]
 mod buildw;
+#[cfg(not(feature = "xen"))]
 mod lifew;
 mod bitmap;
 mod copyw;
@@ -69,10 +71,12 @@ fn main() {
         "gm" => {
             rec.ops.push(format!("prof chk={}", chk as u8));
             rec.outs.push("ok".into());
-            let mode = opts.iter().find(|o| ["mixed", "edit", "exhaustive"].contains(o)).copied().unwrap_or("mixed");
+            let mode = opts.iter().find(|o| ["mixed", "edit", "exhaustive", "xen"].contains(o)).copied().unwrap_or("mixed");
             guest::run(&mut rec, &mut rng, n, mode);
         }
+        #[cfg(not(feature = "xen"))]
         "build" => buildw::run(&mut rec, &mut rng, n),
+        #[cfg(not(feature = "xen"))]
         "life" => lifew::run(&mut rec, &mut rng, n),
         "amem" => atomw::run(&mut rec, &mut rng, n, if opts.contains(&"stress") { 3 } else { 0 }),
         "copy" => copyw::run(&mut rec, &mut rng, n, if opts.contains(&"tear") { 2 } else { 0 }),
@@ -96,7 +100,9 @@ enum SlAny {
 }
 
 thread_local! {
+    #[cfg(not(feature = "xen"))]
     static BW: std::cell::RefCell<buildw::BuildWorld> = std::cell::RefCell::new(buildw::BuildWorld::new());
+    #[cfg(not(feature = "xen"))]
     static LW: std::cell::RefCell<lifew::LifeWorld> = std::cell::RefCell::new(lifew::LifeWorld::new());
     static AM: std::cell::RefCell<atomw::AmemWorld> = std::cell::RefCell::new(atomw::AmemWorld::new());
     static CP: std::cell::RefCell<copyw::CopyWorld> = std::cell::RefCell::new(copyw::CopyWorld::new());
@@ -111,10 +117,12 @@ fn exec_line(rec: &mut Rec, world: &str, line: &str, chk: bool) -> String {
         return "ok".into();
     }
     match world {
+        #[cfg(not(feature = "xen"))]
         "build" => BW.with(|w| {
             let l = line.rsplit_once(" kernel=").map(|x| x.0).unwrap_or(line);
             w.borrow_mut().exec(rec, l)
         }),
+        #[cfg(not(feature = "xen"))]
         "life" => LW.with(|w| w.borrow_mut().exec(rec, line)),
         "amem" => AM.with(|w| w.borrow_mut().exec(rec, line)),
         "copy" => CP.with(|w| w.borrow_mut().exec(rec, line)),
